@@ -50,6 +50,8 @@ pub struct ClientSim {
     /// Client-side pre-spawned entities (C16): name -> client entity.
     pub prespawned: BTreeMap<String, Entity>,
     pub panicked: bool,
+    /// client emissions queued by the driver: (type, id, slot)
+    pub pending_emits: Vec<(String, u32, Option<String>)>,
 }
 
 #[derive(Default, Clone)]
@@ -75,6 +77,8 @@ pub struct Sim {
     pub server_panicked: bool,
     /// messages sent in the last step (decoded), for `obs`
     pub last_sent: Vec<Value>,
+    /// what game logic observed in the last frame (event deliveries)
+    pub last_delivered: Vec<Value>,
     pub last_panic: Option<String>,
     /// decoder problems: the run is a tool error, not a verdict
     pub tool_errors: Vec<String>,
@@ -178,6 +182,7 @@ impl Sim {
                 sess: 0,
                 prespawned: BTreeMap::new(),
                 panicked: false,
+                pending_emits: Vec::new(),
             });
         }
         let mut slots = BTreeMap::new();
@@ -197,6 +202,7 @@ impl Sim {
             next_msg_id: 1,
             server_panicked: false,
             last_sent: Vec::new(),
+            last_delivered: Vec::new(),
             last_panic: None,
             tool_errors: Vec::new(),
         }
@@ -402,11 +408,16 @@ impl Sim {
         cl.prespawned.clear();
     }
 
-    pub fn authorize(&mut self, c: &str) {
+    pub fn authorize(&mut self, c: &str) -> bool {
         let ci = self.ci(c);
         if let Some(ce) = self.clients[ci].entity {
+            if self.server.world().entity(ce).contains::<AuthorizedClient>() {
+                return false;
+            }
             self.server.world_mut().entity_mut(ce).insert(AuthorizedClient);
+            return true;
         }
+        false
     }
 
     pub fn stop(&mut self) {
@@ -453,12 +464,88 @@ impl Sim {
         f(&names)
     }
 
+    /// Index of the first test-event channel (the protocol check registers one trigger per direction first).
+    pub fn sev_ch(&self, t: &str) -> usize {
+        self.ev_base().0 + crate::events::SEV.iter().position(|x| *x == t).expect("server event type")
+    }
+
+    pub fn cev_ch(&self, t: &str) -> usize {
+        self.ev_base().1 + crate::events::CEV.iter().position(|x| *x == t).expect("client event type")
+    }
+
+    fn ev_base(&self) -> (usize, usize) {
+        if self.cfg.auth == "protocol" { (3, 2) } else { (2, 1) }
+    }
+
+    fn decode_sev(&self, ch: usize, bytes: &Bytes) -> Result<Value, String> {
+        let (sb, _) = self.ev_base();
+        if !self.cfg.events || ch < sb || ch - sb >= crate::events::SEV.len() {
+            return Ok(json!({"t": format!("ch{ch}"), "id": -1, "stamp": -1, "e": "none", "len": bytes.len(), "hex": wire::hex(bytes)}));
+        }
+        let t = crate::events::SEV[ch - sb];
+        let mut c = wire::Cur::new(bytes);
+        let stamp: i64 = if t == "SInd" { -1 } else { c.varint()? as i64 };
+        let mut e = "none".to_string();
+        let id;
+        match t {
+            "SOrd" | "SInd" => id = c.varint()?,
+            "SMap" => {
+                id = c.varint()?;
+                let bits = c.varint()?;
+                e = Entity::try_from_bits(bits).ok().and_then(|x| self.rev.get(&x).cloned()).unwrap_or(format!("?{bits}"));
+            }
+            _ => {
+                let n = c.varint()?;
+                for _ in 0..n {
+                    let bits = c.entity_bits()?;
+                    e = Entity::try_from_bits(bits).ok().and_then(|x| self.rev.get(&x).cloned()).unwrap_or(format!("?{bits}"));
+                }
+                id = c.varint()?;
+            }
+        }
+        if c.rem() != 0 {
+            return Err("trailing bytes in event".into());
+        }
+        Ok(json!({"t": t, "id": id, "stamp": stamp, "e": e}))
+    }
+
+    fn decode_cev(&self, ch: usize, bytes: &Bytes) -> Result<Value, String> {
+        let (_, cb) = self.ev_base();
+        if !self.cfg.events || ch < cb || ch - cb >= crate::events::CEV.len() {
+            return Ok(json!({"t": format!("ch{ch}"), "id": -1, "e": "none", "len": bytes.len(), "hex": wire::hex(bytes)}));
+        }
+        let t = crate::events::CEV[ch - cb];
+        let mut c = wire::Cur::new(bytes);
+        let mut e = "none".to_string();
+        let id;
+        match t {
+            "COrd" => id = c.varint()?,
+            "CMap" => {
+                id = c.varint()?;
+                let bits = c.varint()?;
+                e = Entity::try_from_bits(bits).ok().and_then(|x| self.rev.get(&x).cloned()).unwrap_or(format!("?{bits}"));
+            }
+            _ => {
+                let n = c.varint()?;
+                for _ in 0..n {
+                    let bits = c.entity_bits()?;
+                    e = Entity::try_from_bits(bits).ok().and_then(|x| self.rev.get(&x).cloned()).unwrap_or(format!("?{bits}"));
+                }
+                id = c.varint()?;
+            }
+        }
+        if c.rem() != 0 {
+            return Err("trailing bytes in event".into());
+        }
+        Ok(json!({"t": t, "id": id, "e": e}))
+    }
+
     fn decode_s2c(&mut self, ci: Option<usize>, ch: usize, bytes: &Bytes) -> Value {
-        let r = self.with_names(ci, |names| match ch {
-            CH_UPD => wire::decode_update(bytes, names),
-            CH_MUT => wire::decode_mutate(bytes, names),
-            _ => Ok(json!({"kind": "ev", "ch": ch, "len": bytes.len(), "hex": wire::hex(bytes)})),
-        });
+        let r = match ch {
+            CH_UPD => self.with_names(ci, |names| wire::decode_update(bytes, names)),
+            CH_MUT => self.with_names(ci, |names| wire::decode_mutate(bytes, names)),
+            _ => self.decode_sev(ch, bytes),
+        };
         match r {
             Ok(v) => v,
             Err(e) => {
@@ -471,6 +558,7 @@ impl Sim {
     pub fn server_frame(&mut self, tick: bool, dt_ms: u64) {
         self.last_sent.clear();
         self.last_panic = None;
+        self.last_delivered.clear();
         set_dt(&mut self.server, dt_ms);
         let running = self.server.world().resource::<RepliconServer>().is_running();
         if tick {
@@ -507,7 +595,7 @@ impl Sim {
             let id = self.next_msg_id;
             self.next_msg_id += 1;
             let Some(ci) = ci else {
-                self.last_sent.push(json!({"c": "?", "ch": ch, "m": dec}));
+                self.last_sent.push(json!({"c": "?", "ch": ch_name_s2c(ch), "id": id, "m": dec, "len": bytes.len()}));
                 continue;
             };
             let mut o = json!({"c": self.clients[ci].name, "ch": ch_name_s2c(ch), "id": id, "m": dec.clone()});
@@ -519,42 +607,198 @@ impl Sim {
             }
             self.clients[ci].s2c[ch].push_back(Msg { id, bytes, dec });
         }
+        self.collect_server_log();
     }
 
     pub fn client_frame(&mut self, c: &str, dt_ms: u64) {
         let ci = self.ci(c);
         self.last_sent.clear();
         self.last_panic = None;
-        let cl = &mut self.clients[ci];
-        set_dt(&mut cl.app, dt_ms);
-        let r = catch_unwind(AssertUnwindSafe(|| cl.app.update()));
-        if let Err(p) = r {
-            cl.panicked = true;
-            self.last_panic = Some(panic_msg(p));
-        }
-        for q in &mut cl.rx {
-            q.clear();
-        }
-        let sent: Vec<(usize, Bytes)> = cl.app.world_mut().resource_mut::<RepliconClient>().drain_sent().collect();
+        self.last_delivered.clear();
+        self.flush_client_emits(ci);
+        let sent: Vec<(usize, Bytes)> = {
+            let cl = &mut self.clients[ci];
+            set_dt(&mut cl.app, dt_ms);
+            let r = catch_unwind(AssertUnwindSafe(|| cl.app.update()));
+            if let Err(p) = r {
+                cl.panicked = true;
+                self.last_panic = Some(panic_msg(p));
+            }
+            for q in &mut cl.rx {
+                q.clear();
+            }
+            cl.app.world_mut().resource_mut::<RepliconClient>().drain_sent().collect()
+        };
         for (ch, bytes) in sent {
             let id = self.next_msg_id;
             self.next_msg_id += 1;
-            let dec = if ch == CH_ACK {
-                match wire::decode_acks(&bytes) {
-                    Ok(v) => v,
-                    Err(e) => {
-                        self.tool_errors.push(format!("decode ack: {e}"));
-                        json!([])
-                    }
+            let dec = if ch == CH_ACK { wire::decode_acks(&bytes) } else { self.decode_cev(ch, &bytes) };
+            let dec = match dec {
+                Ok(v) => v,
+                Err(e) => {
+                    self.tool_errors.push(format!("decode c2s ch{ch}: {e}"));
+                    json!({"kind": "undecodable"})
                 }
-            } else {
-                json!({"kind": "ev", "ch": ch, "len": bytes.len(), "hex": wire::hex(&bytes)})
             };
+            let cl = &mut self.clients[ci];
             self.last_sent.push(json!({"c": cl.name, "ch": ch_name_c2s(ch), "id": id, "m": dec.clone()}));
             if ch < cl.c2s.len() {
                 cl.c2s[ch].push_back(Msg { id, bytes, dec });
             }
         }
+        self.collect_client_log(ci);
+    }
+
+    // ------------------------------------------------------------------ events
+
+    fn send_mode(&self, mode: &str, to: Option<&str>) -> Option<SendMode> {
+        let ent = |c: &str| self.clients[self.ci(c)].entity;
+        Some(match (mode, to) {
+            ("all", _) => SendMode::Broadcast,
+            ("except", Some("server")) => SendMode::BroadcastExcept(SERVER),
+            ("except", Some(c)) => SendMode::BroadcastExcept(ent(c)?),
+            ("direct", Some("server")) => SendMode::Direct(SERVER),
+            ("direct", Some(c)) => SendMode::Direct(ent(c)?),
+            _ => return None,
+        })
+    }
+
+    /// Queues a server event; the server app emits it inside the `Update` of its next frame.
+    pub fn emit_s(&mut self, t: &str, id: u32, mode: &str, to: Option<&str>, e: Option<&str>) -> bool {
+        let Some(mode) = self.send_mode(mode, to) else { return false };
+        let e = match e {
+            Some(n) => match self.server_entity(n) {
+                Some(x) => Some(x),
+                None => return false,
+            },
+            None => None,
+        };
+        let Some(mut p) = self.server.world_mut().get_resource_mut::<crate::events::PendingEmits>() else { return false };
+        p.0.push(crate::events::Emit::S { t: t.to_string(), id, mode, e });
+        true
+    }
+
+    /// Queues a client event. An entity reference is the client's own entity for the slot; if the
+    /// client does not hold the slot a client-local entity is referenced (which cannot be translated).
+    pub fn emit_c(&mut self, c: &str, t: &str, id: u32, e: Option<&str>) -> bool {
+        let ci = self.ci(c);
+        if self.clients[ci].app.world().get_resource::<crate::events::PendingEmits>().is_none() {
+            return false;
+        }
+        self.clients[ci].pending_emits.push((t.to_string(), id, e.map(str::to_string)));
+        true
+    }
+
+    /// Hands the queued client emissions to the app; the slot is resolved now, the client's own
+    /// entity for it when the emission happens (inside the frame, after receiving).
+    fn flush_client_emits(&mut self, ci: usize) {
+        let pend: Vec<_> = self.clients[ci].pending_emits.drain(..).collect();
+        for (t, id, e) in pend {
+            // a slot that does not exist on the server cannot be held by the client: reference a dead id
+            let se = e.map(|n| self.server_entity(&n).unwrap_or(Entity::from_raw(u32::MAX - 7)));
+            if let Some(mut p) = self.clients[ci].app.world_mut().get_resource_mut::<crate::events::PendingEmits>() {
+                p.0.push(crate::events::Emit::C { t, id, e: se });
+            }
+        }
+    }
+
+    fn collect_client_log(&mut self, ci: usize) {
+        let name = self.clients[ci].name.clone();
+        let Some(mut log) = self.clients[ci].app.world_mut().get_resource_mut::<crate::events::EvLog>() else { return };
+        let entries: Vec<Value> = log.0.drain(..).collect();
+        let map = self.clients[ci].app.world().resource::<ServerEntityMap>();
+        for mut d in entries {
+            // local re-emission of client events on a disconnected client is C13's business
+            if !crate::events::SEV.contains(&d["t"].as_str().unwrap_or("")) {
+                continue;
+            }
+            let bits = d.get("ebits").or(d.get("tbits")).and_then(|b| b.as_u64());
+            let e = match bits {
+                Some(b) => Entity::try_from_bits(b)
+                    .ok()
+                    .and_then(|ce| map.to_server().get(&ce).copied())
+                    .map(|se| self.slot_name(se))
+                    .unwrap_or(format!("?{b}")),
+                None => "none".to_string(),
+            };
+            d["e"] = json!(e);
+            d["at"] = json!(name);
+            if let Some(o) = d.as_object_mut() {
+                o.remove("ebits");
+                o.remove("tbits");
+            }
+            self.last_delivered.push(d);
+        }
+    }
+
+    fn collect_server_log(&mut self) {
+        let Some(mut log) = self.server.world_mut().get_resource_mut::<crate::events::EvLog>() else { return };
+        let entries: Vec<Value> = log.0.drain(..).collect();
+        for mut d in entries {
+            // server events the local server also receives are C13's business
+            if !crate::events::CEV.contains(&d["t"].as_str().unwrap_or("")) {
+                continue;
+            }
+            let from = d.get("from").and_then(|b| b.as_u64()).map(|b| {
+                if b == SERVER.to_bits() {
+                    "server".to_string()
+                } else {
+                    self.clients
+                        .iter()
+                        .find(|c| c.entity.map(|e| e.to_bits()) == Some(b))
+                        .map(|c| c.name.clone())
+                        .unwrap_or(format!("?{b}"))
+                }
+            });
+            let bits = d.get("ebits").or(d.get("tbits")).and_then(|b| b.as_u64());
+            let e = match bits {
+                Some(b) => Entity::try_from_bits(b).ok().map(|se| self.slot_name(se)).unwrap_or(format!("?{b}")),
+                None => "none".to_string(),
+            };
+            d["e"] = json!(e);
+            d["at"] = json!("server");
+            if let Some(f) = from {
+                d["from"] = json!(f);
+            }
+            if let Some(o) = d.as_object_mut() {
+                o.remove("ebits");
+                o.remove("tbits");
+            }
+            self.last_delivered.push(d);
+        }
+    }
+
+    pub fn project_events(&self) -> Value {
+        let mut net = serde_json::Map::new();
+        let (sb, cb) = self.ev_base();
+        for c in &self.clients {
+            let mut sev = serde_json::Map::new();
+            let mut rx_sev = serde_json::Map::new();
+            let mut cev = serde_json::Map::new();
+            let mut srx_cev = serde_json::Map::new();
+            for (i, t) in crate::events::SEV.iter().enumerate() {
+                let ch = sb + i;
+                let (q, r): (Vec<Value>, Vec<Value>) = if self.cfg.events && ch < c.s2c.len() {
+                    (c.s2c[ch].iter().map(|m| m.dec.clone()).collect(), c.rx[ch].iter().map(|m| m.dec.clone()).collect())
+                } else {
+                    (vec![], vec![])
+                };
+                sev.insert(t.to_string(), json!(q));
+                rx_sev.insert(t.to_string(), json!(r));
+            }
+            for (i, t) in crate::events::CEV.iter().enumerate() {
+                let ch = cb + i;
+                let (q, r): (Vec<Value>, Vec<Value>) = if self.cfg.events && ch < c.c2s.len() {
+                    (c.c2s[ch].iter().map(|m| m.dec.clone()).collect(), c.srx[ch].iter().map(|m| m.dec.clone()).collect())
+                } else {
+                    (vec![], vec![])
+                };
+                cev.insert(t.to_string(), json!(q));
+                srx_cev.insert(t.to_string(), json!(r));
+            }
+            net.insert(c.name.clone(), json!({"sev": sev, "rxSev": rx_sev, "cev": cev, "srxCev": srx_cev}));
+        }
+        json!({"net": net})
     }
 
     // ------------------------------------------------------------------ network
@@ -814,7 +1058,7 @@ impl Sim {
         for (i, c) in self.clients.iter().enumerate() {
             cli.insert(c.name.clone(), self.project_client(i));
         }
-        json!({"srv": self.project_server(), "net": self.project_net(), "cli": cli})
+        json!({"srv": self.project_server(), "net": self.project_net(), "cli": cli, "ev": self.project_events()})
     }
 
     pub fn channel_len(&self, c: &str, dir: &str, ch: usize) -> usize {
